@@ -599,8 +599,20 @@ def h_length(env, kind, cfg):
             env.check_raises(lambda: make_any(kind, cfg).set_var_params(list(v)), f"{kind}: set_var_params rejects length {L} != {n}")
             env.check_raises(lambda: make_any(kind, cfg).build_circuit(list(v)), f"{kind}: build_circuit rejects length {L} != {n}")
             A = fresh_built()
+            size0, width0 = A.circuit.size, A.circuit.width
             env.check_raises(lambda: A.update_var_params(list(v)),
                              f"{kind}: update_var_params rejects a vector that is too {'short' if L < n else 'long'}")
+            # a REJECTED vector leaves the ansatz as it was: rebuilding from the stored parameters gives the same circuit shape
+            try:
+                with sym_alloc(env):
+                    A.build_circuit()
+                ok = (A.circuit.size, A.circuit.width, A.n_var_params) == (size0, width0, n)
+                det = f"{(A.circuit.size, A.circuit.width, A.n_var_params)} vs {(size0, width0, n)}"
+            except (SymEscape,):
+                raise
+            except Exception as e:       # noqa
+                ok, det = False, f"{type(e).__name__}: {e}"[:200]
+            env.check_true(ok, f"{kind}: build_circuit() after a rejected update_var_params (length {L}) rebuilds the same circuit shape", detail=det)
 
 
 def make_any(kind, cfg):
